@@ -411,39 +411,110 @@ def check_stems(chk) -> None:
         K(st, "source"),
         found=norm(loop.iter),
     )
-    # the extension condition
+    # the extension condition, read path by path through the loop body
+    from sa import paths as P
+
     env = SymEnv(st.node)
-    cand = atom_of(env.name(loop.target.id)) if isinstance(loop.target, ast.Name) else None
-    fm = FlowMap(st.node)
-    appends = [c for c in astq.calls(loop, "append") if c.args and isinstance(c.args[0], ast.Name) and isinstance(loop.target, ast.Name) and c.args[0].id == loop.target.id]
-    ext = None
-    for c in appends:
-        stmt = fm.stmt_of(c)
-        gs = [g for g in fm.of(stmt).guards if g.kind == "if" and g.polarity]
-        for g in gs:
-            atoms = compare_atoms(env, g.test)
-            if atoms and len(atoms) >= 2:
-                ext = (c, g, atoms)
-    if ext is None or cand is None:
-        chk.error("stems-run", st.where, "run-extension condition not found (append of the candidate under an affine conjunction)")
+    if not isinstance(loop.target, ast.Name):
+        chk.error("stems-run", st.site(loop), "loop target is not a name")
         return
-    c, g, atoms = ext
-    run = atom_of(env.ev(c.func.value))
+    cand_name = loop.target.id
+    cand = atom_of(env.name(cand_name))
+    pushes = [c for c in astq.calls(loop, "append") if c.args and norm(c.args[0]) == cand_name and isinstance(c.func.value, ast.Name)]
+    runs = {c.func.value.id for c in pushes}
+    if len(runs) != 1:
+        chk.error("stems-run", st.site(loop), f"the run in progress is not one list receiving the candidate (found {sorted(runs)})")
+        return
+    R = next(iter(runs))
+    closes = [c for c in astq.calls(loop, "append") if c.args and norm(c.args[0]) == R and isinstance(c.func.value, ast.Name)]
+    S = closes[0].func.value.id if closes else None
+    run = atom_of(env.name(R))
     last = ("item", -1, run)
     want_atoms = {
         normalise_rel(Aff.of(("item", 0, cand)) - Aff.of(("item", 0, last)) - Aff.c(1), "=="),
         normalise_rel(Aff.of(("item", 2, last)) - Aff.of(("item", 2, cand)) - Aff.c(1), "=="),
     }
-    chk.expect(
-        set(atoms) == want_atoms,
-        "stems-run",
-        st.site(g.test),
-        "a pair (i,j) extends the current run iff i = k+1 and j = l-1 for the run's last pair (k,l)",
-        f"run-extension test `{norm(g.test)}` is not `i == k + 1 and j == l - 1` against the last pair of the run",
-        K(st, "run-condition"),
-        expected=sorted(f"{a.show()} {r} 0" for a, r in want_atoms),
-        found=sorted(f"{a.show()} {r} 0" for a, r in atoms),
-    )
+    try:
+        all_paths = P.paths(loop.body)
+    except P.TooManyPaths as ex:
+        chk.error("stems-run", st.site(loop), str(ex))
+        return
+    problems, unknown = [], []
+    n_ext = n_restart = n_start = 0
+    for events, exit_ in all_paths:
+        nonempty = None
+        atoms_true, atoms_false, foreign = set(), set(), []
+        for ev in events:
+            if ev[0] != "test":
+                continue
+            t, val, node = ev[1], ev[2], ev[3]
+            if t in (R, f"len({R}) > 0", f"len({R}) != 0", f"len({R}) >= 1"):
+                nonempty = val
+            elif t in (f"len({R}) == 0", f"not {R}"):
+                nonempty = not val
+            else:
+                at = compare_atoms(env, node)
+                if at and len(at) == 1:
+                    (atoms_true if val else atoms_false).add(at[0])
+                    if at[0] not in want_atoms:
+                        foreign.append((t, node))
+                else:
+                    unknown.append(t)
+        eff = []
+        for ev in events:
+            if ev[0] != "stmt":
+                continue
+            tx = norm(ev[1])
+            if S and tx == f"{S}.append({R})":
+                eff.append("close")
+            elif tx == f"{R} = []" or tx == f"{R} = list()":
+                eff.append("empty")
+            elif tx == f"{R} = [{cand_name}]":
+                eff.append("restart")
+            elif tx == f"{R}.append({cand_name})":
+                eff.append("push")
+        if nonempty is None:
+            unknown.append("emptiness of the run undecided on a path")
+            continue
+        if nonempty is False:
+            n_start += 1
+            if eff not in (["push"], ["restart"]):
+                problems.append((loop, f"with no run in progress the candidate is handled as {eff or 'nothing'}, not as the start of a run", "start"))
+            continue
+        if foreign:
+            problems.append((foreign[0][1], f"run-extension test `{foreign[0][0]}` is not one of `i == k + 1`, `j == l - 1` against the last pair (k, l) of the run", "run-condition"))
+            continue
+        stacked = want_atoms <= atoms_true
+        broken = bool(atoms_false & want_atoms)
+        if stacked and not broken:
+            n_ext += 1
+            if eff != ["push"]:
+                problems.append((loop, f"a pair with i = k+1 and j = l-1 is handled as {eff}: it must extend the run (append, no close)", "extend"))
+        elif broken:
+            n_restart += 1
+            if eff not in (["close", "restart"], ["close", "empty", "push"]):
+                problems.append((loop, f"a pair that does not continue the run (i != k+1 or j != l-1) is handled as {eff}: the run must be closed and a new one started with the pair", "restart"))
+        else:
+            unknown.append(f"path decides only {sorted(a.show() + r for a, r in atoms_true)}")
+    if unknown and not problems:
+        chk.error("stems-run", st.site(loop), f"run construction not understood: {unknown[:2]}")
+        return
+    seen_k = set()
+    for node, msg, key in problems:
+        if key in seen_k:
+            continue
+        seen_k.add(key)
+        chk.violation("stems-run", st.site(node), msg, K(st, f"run-{key}"))
+    if not problems:
+        chk.expect(
+            n_ext >= 1 and n_restart >= 1 and n_start >= 1,
+            "stems-run",
+            st.site(loop),
+            f"{len(all_paths)} paths: a pair (i,j) extends the current run iff i = k+1 and j = l-1 for the run's last pair (k,l); otherwise the run is closed and the pair starts the next one",
+            "some case of the run construction (start / extend / restart) has no path",
+            K(st, "run-condition"),
+            found={"start": n_start, "extend": n_ext, "restart": n_restart},
+        )
     # a run that is not extended is closed and a new one started with the candidate; last run flushed
     body_text = [norm(s) for s in ast.walk(st.node) if isinstance(s, ast.stmt)]
     flush = [s for s in st.node.body if isinstance(s, ast.If) and any(astq.callee_name(c) == "append" for c in astq.calls(s))]
